@@ -65,6 +65,8 @@ type Eval struct {
 	R     *Results
 	facts Facts
 	rw    map[string]*Term
+	// ExtraProps: properties every verdict of this evaluation also belongs to (set by the effect's context)
+	ExtraProps []string
 }
 
 func (a *Analyzer) NewEval(e *Effect, r *Results) *Eval {
@@ -83,6 +85,11 @@ func (a *Analyzer) Normalize(f Facts) (Facts, map[string]*Term) {
 		}
 		for i := 0; i < 2; i++ {
 			l, r := at.Args[i], at.Args[1-i]
+			// a snapshot that still equals the live read is the live read
+			if l.Op == "pre" && strings.HasSuffix(l.Name, "!snap") && len(l.Args) == 1 && l.Args[0].Key() == r.Key() {
+				rw[l.Key()] = r
+				continue
+			}
 			base := l
 			if base.Op == "field" && len(base.Args) == 1 {
 				base = base.Args[0]
@@ -398,7 +405,7 @@ func (ev *Eval) heldSample() []string {
 
 // Require: all atoms must hold. kind distinguishes root kinds in the key.
 func (ev *Eval) Require(rule string, props []string, text, kind string, atoms ...*Atom) bool {
-	o := &Obl{Rule: rule, Key: ev.key(rule, kind), Props: props, Text: text, Entry: ev.E.Entry, Site: ev.E.Pos(ev.A), Path: ev.E.PathString(), Engine: "A"}
+	o := &Obl{Rule: rule, Key: ev.key(rule, kind), Props: ev.withExtra(props), Text: text, Entry: ev.E.Entry, Site: ev.E.Pos(ev.A), Path: ev.E.PathString(), Engine: "A"}
 	ok := true
 	for _, a := range atoms {
 		h := ev.Has(a)
@@ -424,7 +431,7 @@ func (ev *Eval) Require(rule string, props []string, text, kind string, atoms ..
 
 // RequireAny: at least one alternative (a conjunction) must hold.
 func (ev *Eval) RequireAny(rule string, props []string, text, kind string, alts ...[]*Atom) bool {
-	o := &Obl{Rule: rule, Key: ev.key(rule, kind), Props: props, Text: text, Entry: ev.E.Entry, Site: ev.E.Pos(ev.A), Path: ev.E.PathString(), Engine: "A"}
+	o := &Obl{Rule: rule, Key: ev.key(rule, kind), Props: ev.withExtra(props), Text: text, Entry: ev.E.Entry, Site: ev.E.Pos(ev.A), Path: ev.E.PathString(), Engine: "A"}
 	var missing []string
 	for _, alt := range alts {
 		ok := true
@@ -455,8 +462,15 @@ func (ev *Eval) RequireAny(rule string, props []string, text, kind string, alts 
 }
 
 // Verdict records a rule outcome computed by custom logic at this effect.
+func (ev *Eval) withExtra(props []string) []string {
+	if len(ev.ExtraProps) == 0 {
+		return props
+	}
+	return dedupSorted(append(append([]string{}, props...), ev.ExtraProps...))
+}
+
 func (ev *Eval) Verdict(rule string, props []string, text, kind string, ok bool, missing string, guards ...string) bool {
-	o := &Obl{Rule: rule, Key: ev.key(rule, kind), Props: props, Text: text, Entry: ev.E.Entry, Site: ev.E.Pos(ev.A), Path: ev.E.PathString(), Engine: "A"}
+	o := &Obl{Rule: rule, Key: ev.key(rule, kind), Props: ev.withExtra(props), Text: text, Entry: ev.E.Entry, Site: ev.E.Pos(ev.A), Path: ev.E.PathString(), Engine: "A"}
 	if ok {
 		o.Status = "discharged"
 		o.Guards = guards
